@@ -623,6 +623,12 @@ def expr_suite(c, which="rank1_vector", pts="interior", npts=5):
 
 
 @builder
+def expr_zero(c):
+    """An expression that is identically zero (its kernel body starts directly with the point loop)."""
+    return (ufl.zero((1,)), _ref_points(c.cell, "interior", 5))
+
+
+@builder
 def expr_dropped(c, which=0):
     """Expressions in which UFL's preprocessing eliminates a coefficient (or constant) that was created BEFORE one that
     survives: original_coefficient_positions / constant offsets must still refer to the expression the user passed."""
